@@ -228,9 +228,8 @@ def verdict_real(lines, rc):
         for l in lines:
             yield l
     asyncio.run(run.parse(H(), gen()))
-    run.complete_skip() if False else None
     run.returncode = rc
-    run._complete()
+    run.complete()
     return run.res.is_bad()
 
 
@@ -247,6 +246,11 @@ def run(REG, tier, seed, jobs):
     ev, nt, fails = pmap(_stream_chunk, chunked(gen, 3000), jobs)
     parts.append({'name': 'C18/bounded/streams-vs-TAP-reference', 'function': 'TAPParser.parse', 'bound': f'all streams of <= {n} lines over {len(ALPHA)} line forms, plus random streams of 4..8 lines',
                   'evaluations': ev, 'distinct_nontrivial': nt, 'rule': 'non-trivial: the reference yields at least one subtest', 'exhaustive': False, 'failures': fails})
+    vs = [(seq, rc) for k in (0, 1, 2) for seq in itertools.product(ALPHA, repeat=k) for rc in (0, 1)]
+    vs += [(tuple(rnd.choice(ALPHA) for _ in range(rnd.randint(3, 6))), rnd.choice((0, 0, 1))) for _ in range(6000 if tier == 'quick' else 100000)]
+    evv, ntv, failsv = pmap(_verdict_chunk, chunked(iter(vs), 500), jobs)
+    parts.append({'name': 'C18/bounded/TestRunTAP-verdict', 'function': 'TestRunTAP.parse / complete', 'bound': f'{len(vs)} (stream, exit status) pairs: all streams of <= 2 lines over {len(ALPHA)} line forms x exit 0/1, plus random streams of 3..6 lines',
+                  'evaluations': evv, 'distinct_nontrivial': ntv, 'rule': 'every pair', 'exhaustive': False, 'failures': failsv})
     junk = (tuple(''.join(rnd.choice('ok nt#1.2TAPvB!-\té') for _ in range(rnd.randint(0, 12))) for _ in range(rnd.randint(1, 4))) for _ in range(30000 if tier == 'quick' else 300000))
 
     def _noraise(chunk):
@@ -269,6 +273,7 @@ def _junk_chunk(chunk):
 
 
 CHECKS = {
+    'C18/bounded/TestRunTAP-verdict': (_verdict_chunk, lambda c: (tuple(c['lines']), c['returncode'])),
     'C18/bounded/streams-vs-TAP-reference': (_stream_chunk, lambda c: tuple(c['lines'])),
     'C18/bounded/arbitrary-text-never-raises': (_junk_chunk, lambda c: tuple(c['lines'])),
 }
